@@ -853,8 +853,10 @@ func c11DeadlineFreesLoop(kind string, k, extra, others int, closeToo bool) cwSc
 		s = append(s, Step{Op: "closesend", C: c})
 	}
 	s = append(s, Step{Op: "drain"}, Step{Op: "tick", D: 3000}, Step{Op: "drain"})
+	// the handler does NOT return within the scenario (its return would cancel the stream and end any hold): the probe and
+	// the other calls must complete with the handler still there
 	s = append(s, probeSteps(false)...)
-	s = append(s, hop(c, HOp{Op: "return", Ctx: true}), Step{Op: "drain"}, Step{Op: "recv", C: c})
+	s = append(s, Step{Op: "recv", C: c})
 	s = append(s, post...)
 	return cwScenario{Mode: "e2e", Steps: s, Tags: []string{"c11", "abandon:handler-stops-consuming", "hold-ends-at:handler-deadline", "kind:" + kind,
 		fmt.Sprintf("read:%d", k), fmt.Sprintf("unread:%d", extra), fmt.Sprintf("others:%d", others), fmt.Sprintf("half-close:%v", closeToo)}}
